@@ -714,6 +714,25 @@ func c04(c *core.Ctx) {
 				}
 			}
 		}
+		// in-process: a function that runs the handler itself and hands the handler's error back to its caller (a
+		// fast path that skips the goroutine and the frames) translates it like the frame path does
+		for _, fn := range p.LibFuncs("inprocgrpc") {
+			hcs := handlerInvocations(fn)
+			if len(hcs) == 0 || core.ErrResultIndex(fn.Signature) < 0 {
+				continue
+			}
+			ei := core.ErrResultIndex(fn.Signature)
+			for _, r := range core.Returns(fn) {
+				if ei >= len(r.Results) {
+					continue
+				}
+				for _, l := range core.ErrLeaves(r.Results[ei], r) {
+					if isErrResultOf(l.V, hcs) {
+						c.Fail(core.FuncName(fn)+":handler-error-returned-untranslated", r.Pos(), "the handler's error is returned to the caller as it is: a handler returning its own ctx.Err() is reported as Unknown instead of Canceled / DeadlineExceeded (the frame path passes it through the context translator)")
+					}
+				}
+			}
+		}
 		// in-process server: where an error frame is written, a non-status error is made a status error by a
 		// conversion that knows context errors (FromContextError, or a translator first) — a plain
 		// status.Convert/FromError would turn the handler's own ctx.Err() into Unknown
